@@ -587,3 +587,74 @@ pub fn procedural_graph(n: usize, seed: u64, directed: bool, weighted: bool) -> 
         weighted,
     }
 }
+
+// ------------------------------------------------------------------------------------------------
+// linear-time component oracles for the large-size class of C10
+
+/// weakly connected component label of every node (union-find)
+pub fn weak_labels(g: &NormGraph) -> Vec<usize> {
+    let mut parent: Vec<usize> = (0..g.n).collect();
+    fn find(p: &mut Vec<usize>, mut x: usize) -> usize {
+        while p[x] != x {
+            p[x] = p[p[x]];
+            x = p[x];
+        }
+        x
+    }
+    for (i, j, _) in &g.edges {
+        let (a, b) = (find(&mut parent, *i), find(&mut parent, *j));
+        if a != b {
+            parent[a] = b;
+        }
+    }
+    (0..g.n).map(|i| find(&mut parent, i)).collect()
+}
+
+/// strongly connected component label of every node (iterative Kosaraju)
+pub fn strong_labels(g: &NormGraph) -> Vec<usize> {
+    let n = g.n;
+    let mut out: Vec<Vec<usize>> = vec![vec![]; n];
+    let mut inc: Vec<Vec<usize>> = vec![vec![]; n];
+    for (i, j, _) in &g.edges {
+        out[*i].push(*j);
+        inc[*j].push(*i);
+    }
+    let mut order = Vec::with_capacity(n);
+    let mut seen = vec![false; n];
+    for s in 0..n {
+        if seen[s] {
+            continue;
+        }
+        let mut stack = vec![(s, 0usize)];
+        seen[s] = true;
+        while let Some((v, k)) = stack.pop() {
+            if k < out[v].len() {
+                stack.push((v, k + 1));
+                let u = out[v][k];
+                if !seen[u] {
+                    seen[u] = true;
+                    stack.push((u, 0));
+                }
+            } else {
+                order.push(v);
+            }
+        }
+    }
+    let mut label = vec![usize::MAX; n];
+    for &s in order.iter().rev() {
+        if label[s] != usize::MAX {
+            continue;
+        }
+        let mut stack = vec![s];
+        label[s] = s;
+        while let Some(v) = stack.pop() {
+            for &u in &inc[v] {
+                if label[u] == usize::MAX {
+                    label[u] = s;
+                    stack.push(u);
+                }
+            }
+        }
+    }
+    label
+}
